@@ -378,9 +378,22 @@ fn gen_scoring_query(rng: &mut StdRng) -> Value {
         }
     };
     // `nf` holds the title tokens indexed with frequencies but without fieldnorms (constant norm): used next to the normed field
-    let t = |rng: &mut StdRng| json!({"k":"term","f": if rng.random_bool(0.3) { "nf" } else { "title" },"t":tok(rng),"opt":"freq"});
+    // `bt` holds the title tokens indexed without frequencies (Basic) but with fieldnorms.  A single term on it is the recorded
+    // finding F53 (its blocks have a block max score of 0): the default generator uses `bt` inside unions / intersections only
+    // (they do not take the block-WAND path for such a field), unless VERIF_UNSTEER names F53.
+    let t = |rng: &mut StdRng| {
+        let f = match rng.random_range(0..10) { 0..=2 => "nf", 3 => "bt", _ => "title" };
+        json!({"k":"term","f":f,"t":tok(rng),"opt": if f == "bt" && rng.random_bool(0.5) { "basic" } else { "freq" }})
+    };
+    let t_top = |rng: &mut StdRng| {
+        let mut q = t(rng);
+        if q["f"] == "bt" && !qlib::unsteered("F53") {
+            q["f"] = json!("title");
+        }
+        q
+    };
     match rng.random_range(0..10) {
-        0 => t(rng),
+        0 => t_top(rng),
         1..=3 => {
             let n = rng.random_range(2..6);
             qlib::bool_json((0..n).map(|_| json!({"o":"should","q":t(rng)})).collect(), None)
